@@ -567,7 +567,7 @@ class FX:
         local masked.  Independent of the local's name and of most of the surrounding Python."""
         from collections import Counter
         from .core import cnorm
-        local = {n for n in self.decl if n.isidentifier()}
+        local = {n for n in self.decl if n.isidentifier()} | {i.name for i in self.insts if i.name.isidentifier()}
         names = set(names)
         cache = {}
 
@@ -589,6 +589,25 @@ class FX:
         def occ(e):
             return {x.id for x in ast.walk(e) if isinstance(x, ast.Name) and x.id in names} if isinstance(e, ast.AST) else set()
         fp = {n: Counter() for n in names}
+
+        def lit(e, me):
+            """text with only `me` masked: tells twins apart once their neighbours have their pinned names"""
+            if not isinstance(e, ast.AST):
+                return "?"
+            m = copy.deepcopy(e)
+            for x in ast.walk(m):
+                if isinstance(x, ast.Name) and x.id == me:
+                    x.id = "§"
+            try:
+                return cnorm(m, eqsym=True)[:160]
+            except Exception:
+                return "?"
+        for a in self.assigns:
+            involved = occ(a.target) | occ(a.value)
+            for c, _ in a.guards:
+                involved |= occ(c)
+            for n in involved:
+                fp[n]["L|" + lit(a.target, n) + "<=" + lit(a.value, n) + "|" + " & ".join(sorted(lit(c, n) for c, _ in a.guards))] += 1
         for a in self.assigns:
             dom = a.domain.split(":")[0] + ("@" + str(a.state[1]) if a.state else "")
             mt, mv = mask(a.target), mask(a.value)
@@ -623,6 +642,9 @@ class FX:
             d = self.decl.get(n)
             if d:
                 fp[n][f"D|{d[0]}|{mask(d[1]) if isinstance(d[1], ast.AST) else ''}"] += 1
+        for i in self.insts:
+            if i.name in names:
+                fp[i.name][f"D|inst|{i.cls}|{mask(i.call) if i.call is not None else ''}"] += 1
         return fp
 
     def _resolve_loop_vars(self, ctx, headers, pinned_headers):
@@ -705,11 +727,11 @@ class FX:
                     c["loops"] = [((pt, i2) if (t2, i2) == (t, it) else (t2, i2)) for t2, i2 in c["loops"]]
             ctx.note(f"{self.rel}::{self.scope}: loop `{t} in {it}` is read with the pinned loop variables `{pt}`")
 
-    def _resolve_ir_renames(self, ctx, entries):
+    def _resolve_ir_renames(self, ctx, entries, _depth=0):
         key = f"{self.rel}::{self.scope}::{','.join(entries) if self.cls_name else ''}"
         headers = sorted({(t, it) for a in self.assigns for t, it in a.loops if not it.startswith("=")})
         if RECORD_IR is not None:
-            names = [n for n in self.decl if n.isidentifier()]
+            names = [n for n in self.decl if n.isidentifier()] + [i.name for i in self.insts if i.name.isidentifier()]
             RECORD_IR[key] = {n: dict(c) for n, c in self._ir_fingerprints(names).items() if c}
             RECORD_IR[key]["#loops"] = [list(h) for h in headers]
             return
@@ -719,19 +741,36 @@ class FX:
         if not pinned:
             return
         pinned = dict(pinned)
-        self._resolve_loop_vars(ctx, headers, pinned.pop("#loops", []))
+        ploops = pinned.pop("#loops", [])
+        if _depth == 0:
+            self._resolve_loop_vars(ctx, headers, ploops)
         used = {x.id for a in self.assigns for e in (a.target, a.value) if isinstance(e, ast.AST) for x in ast.walk(e) if isinstance(x, ast.Name)}
-        missing = [n for n in pinned if n not in self.decl and n not in used]
-        extra = [n for n in self.decl if n.isidentifier() and n not in pinned]
+        have = set(self.decl) | {i.name for i in self.insts}
+        missing = [n for n in pinned if n not in have and n not in used]
+        extra = [n for n in have if n.isidentifier() and n not in pinned]
         if not missing or not extra:
             return
         from . import names as _names
+        from collections import Counter as _Counter
+
+        def split(c):
+            c = _Counter(c)
+            return _Counter({k: v for k, v in c.items() if not k.startswith("L|")}), _Counter({k: v for k, v in c.items() if k.startswith("L|")})
         fp = self._ir_fingerprints(extra)
         cands = []
         for m in missing:
-            scored = sorted(((_names.similarity(pinned[m], fp[e]), e) for e in extra), reverse=True)
-            if scored and scored[0][0] >= 0.45 and (len(scored) == 1 or scored[0][0] - scored[1][0] >= 0.2):
+            pm, pl = split(pinned[m])
+            scored = sorted(((_names.similarity(pm, split(fp[e])[0]), e) for e in extra), reverse=True)
+            if not scored or scored[0][0] < 0.45:
+                continue
+            if len(scored) == 1 or scored[0][0] - scored[1][0] >= 0.2:
                 cands.append((scored[0][0], scored[0][1], m))
+                continue
+            # twins (wr_/rd_ ...): the literal surroundings decide, if they do so clearly
+            top = [e for sc, e in scored if scored[0][0] - sc < 0.2]
+            lsc = sorted(((_names.similarity(pl, split(fp[e])[1]), e) for e in top), reverse=True)
+            if lsc and lsc[0][0] >= 0.3 and (len(lsc) == 1 or lsc[0][0] - lsc[1][0] >= 0.2):
+                cands.append((scored[0][0], lsc[0][1], m))
         mp = {}
         for sc, e, m in sorted(cands, reverse=True):
             if e in mp or m in mp.values():
@@ -783,6 +822,8 @@ class FX:
         for d in self.decl.values():
             if len(d) > 1 and isinstance(d[1], ast.AST):
                 ren(d[1])
+        if _depth < 3:
+            self._resolve_ir_renames(ctx, entries, _depth + 1)
 
     # ------------------------------------------------------------------ class structure
     def _lookup_class(self, name):
